@@ -345,6 +345,19 @@ struct Minimiser {
 				}
 				json cand = best;
 				json &arr = cand[ptr];
+				bool pinned = false;
+				for (size_t q = i; q < i + take; q++)
+					if (arr[q].is_object() && arr[q].contains("keep"))
+						pinned = true;
+				if (pinned) {
+					// steps marked "keep" establish preconditions of the oracle and are never dropped
+					if (take == 1) {
+						i += 1;
+						continue;
+					}
+					i += chunk;
+					continue;
+				}
 				arr.erase(arr.begin() + i, arr.begin() + i + take);
 				if (test(cand)) {
 					best = cand;
@@ -471,10 +484,18 @@ struct Minimiser {
 					if (best[sp].contains("vals"))
 						shrink_array(sp / "vals", 1);
 					for (const char *k : {"v", "title", "text", "name", "dir"})
-						if (best[sp].contains(k) && best[sp][k].is_string() && best[sp][k].get<std::string>().size() <= 300)
+						if (!best[sp].contains("keep") && best[sp].contains(k) && best[sp][k].is_string() && best[sp][k].get<std::string>().size() <= 300)
 							shrink_string(sp / k);
 				}
-			if (best.contains("world")) {
+			auto frozen = [&](const char *key) {
+				if (!best.contains("frozen"))
+					return false;
+				for (auto &f : best["frozen"])
+					if (f == key)
+						return true;
+				return false;
+			};
+			if (best.contains("world") && !frozen("world")) {
 				json::json_pointer wp("/world");
 				if (best[wp].contains("fs")) {
 					shrink_array(wp / "fs");
@@ -491,7 +512,7 @@ struct Minimiser {
 						try_erase_key(wp / "env", k);
 				}
 			}
-			if (best.contains("schemas"))
+			if (best.contains("schemas") && !frozen("schemas"))
 				for (size_t i = 0; i < best["schemas"].size() && budget(); i++)
 					shrink_schema(json::json_pointer("/schemas") / i / "opts");
 			if (best.contains("knobs")) {
